@@ -117,3 +117,32 @@ Theorem C17_comment_replace_file_obs : forall (uw ud : N -> bool) ls v v' tail i
     eval_obs guard other f (47%N :: 47%N :: v') = eval_obs guard other f (47%N :: 47%N :: v).
 Proof. exact comment_replace_file_obs. Qed.
 Print Assumptions C17_comment_replace_file_obs.
+
+(* ---- file level for prefixes that also hold comments and plain strings (Proofs/LexPrefix2.v): prefix lexemes as above plus
+   block comments over one or several lines (body satisfying bodym_ok), // comments with plain content followed by a newline
+   and string literals with plain content; decidable boundary condition lexs_ok2.  In particular the file may start with the
+   42 header: Props/C18.v C18_header_program_meets_conditions shows the repository's sample header, an empty line and a
+   function in front of the `// done` comment meeting the condition. *)
+From NV Require Import Proofs.LexPrefix2.
+
+Theorem C17_comment_replace_file_obs2 : forall (uw ud : N -> bool) ls v v' tail items xf guard other f,
+  lexs_ok2 ls (47%N :: 47%N :: v ++ tail) = true ->
+  plain_content KLine v = true -> plain_content KLine v' = true -> List.length v' = List.length v -> line_end tail ->
+  replace_inv f = true ->
+  lex uw ud (raws2 ls ++ 47%N :: 47%N :: v ++ tail) = Ok (items, xf) ->
+  let x := lex_nexts2 pos0 ls in
+  exists later t t',
+    items = lex_items2 pos0 ls ++ ITok t (off x) (off x + (2 + List.length v)) :: later /\
+    lex uw ud (raws2 ls ++ 47%N :: 47%N :: v' ++ tail) = Ok (lex_items2 pos0 ls ++ ITok t' (off x) (off x + (2 + List.length v)) :: later, xf) /\
+    t_type t' = t_type t /\ t_line t' = t_line t /\ t_col t' = t_col t /\
+    t_val t = Some (47%N :: 47%N :: v) /\ t_val t' = Some (47%N :: 47%N :: v') /\
+    eval_obs guard other f (47%N :: 47%N :: v') = eval_obs guard other f (47%N :: 47%N :: v).
+Proof. exact comment_replace_file_obs2. Qed.
+Print Assumptions C17_comment_replace_file_obs2.
+
+(* the step this needs beyond Proofs/MultiLineComment.v: a string literal with plain content is one STRING token for any tail *)
+Theorem C17_step_string_plain : forall (uw ud : N -> bool) x v Y, plain_content KString v = true -> rest x = 34%N :: v ++ 34%N :: Y ->
+  step uw ud x = StepItem (ITok (mktok (s "STRING") (line x) (col x) (Some (34%N :: v ++ [34%N]))) (off x) (off x + (2 + List.length v)))
+                          (shift (2 + List.length v) x).
+Proof. exact step_string_plain. Qed.
+Print Assumptions C17_step_string_plain.
